@@ -49,7 +49,10 @@ RULE = ("hand-written corpus + valid map requests of the shared generator (DAGs 
         "a ':' axis or an internal axis; distinct by (specs, shapes, storage, fresh, persist); 1/8 of the requests are also run "
         "as FOLDER RE-USE SEQUENCES in one process: earlier requests (the same pipeline with other input values, other "
         "pipelines/shapes, or the same request followed by cleanup=False) are run into the same folder and reloaded, then "
-        "the request itself, then reloads in that interpreter and in a fresh one (xarray coordinate values of 1-D inputs observed)")
+        "the request itself, then reloads in that interpreter and in a fresh one (xarray coordinate values of 1-D inputs "
+        "observed); also a PARTIAL first step (a transient fault in a mapped function, what was stored is persisted) followed "
+        "by the same request with cleanup=False computed by a real ProcessPoolExecutor (shared_memory_dict most often); 40% of "
+        "the requests give their root inputs and default parameters scoped names (<scope>.<name>, several per scope)")
 ASSUMPTIONS = ["cloudpickle round-trips the values used (strings, lists, object ndarrays, dicts keyed by int tuples)",
                "JSON text layout is not modelled: `json` is the value json.load returns for what json.dump wrote",
                "the run folder is not moved between run and reload, and is given as an absolute normalised path",
@@ -166,8 +169,55 @@ def _storage_arg(st):
     return {(tuple(k) if isinstance(k, list) else k): v for k, v in st["dict"]}
 
 
-def _build(c, log):
-    """mapsym.build_pipeline, with bare-int internal_shape attributes where the case says so."""
+def _safe(name):
+    """A Python identifier for a (possibly scoped, i.e. dotted) parameter name."""
+    return name.replace(".", "__")
+
+
+def _make_callable(fd, log, fail_at=None):
+    """mapsym.make_callable for functions whose parameters may carry scoped names ("s.x0"): the Python signature uses
+    identifiers (the PipeFunc renames them back), the structural value prints the scoped names, as the model does.
+    fail_at: the call index (of this function, in this run) at which RuntimeError is raised."""
+    import inspect
+    import itertools
+
+    import numpy as np
+
+    name, params, outs = fd["name"], fd["params"], fd["outs"]
+    ish = tuple(fd.get("ret") if fd.get("ret") is not None else fd.get("int") or ())
+    aslist = fd.get("intlist", False)
+    counter = itertools.count()
+
+    def body(**kw):
+        app = name + "(" + ",".join(f"{p}={mapsym.canon(kw[_safe(p)])}" for p in params) + ")"
+        log.add(app)
+        if fail_at is not None and next(counter) == fail_at:
+            raise RuntimeError("boom")
+
+        def value(base):
+            if not ish:
+                return base
+            a = np.empty(ish, dtype=object)
+            for j in itertools.product(*map(range, ish)):
+                a[j] = "elem(" + base + ";" + ",".join(map(str, j)) + ")"
+            return a.tolist() if (aslist and len(ish) == 1) else a
+
+        if len(outs) == 1:
+            return value(app)
+        return tuple(value(f"out({o};{app})") for o in outs)
+
+    dflt = dict(fd.get("defaults") or [])
+    body.__signature__ = inspect.Signature([
+        inspect.Parameter(_safe(p), inspect.Parameter.POSITIONAL_OR_KEYWORD,
+                          default=dflt.get(p, inspect.Parameter.empty)) for p in params])
+    body.__name__ = name
+    body.__qualname__ = name
+    return body
+
+
+def _build(c, log, fail=None):
+    """mapsym.build_pipeline, with bare-int internal_shape attributes where the case says so, scoped parameter names
+    (given to the PipeFunc as renames) and an optional transient fault: fail = (function name, call index)."""
     from pipefunc import PipeFunc, Pipeline
 
     funcs = []
@@ -176,8 +226,11 @@ def _build(c, log):
         ish = None
         if fd.get("int"):
             ish = fd["int"][0] if (fd["name"] in c.get("func_int", []) and len(fd["int"]) == 1) else tuple(fd["int"])
-        funcs.append(PipeFunc(mapsym.make_callable(fd, log), output_name=outs[0] if len(outs) == 1 else tuple(outs),
+        renames = {_safe(p): p for p in fd["params"] if _safe(p) != p}
+        funcs.append(PipeFunc(_make_callable(fd, log, fail[1] if fail and fail[0] == fd["name"] else None),
+                              output_name=outs[0] if len(outs) == 1 else tuple(outs),
                               mapspec=mapsym.spec_str(fd.get("spec")), internal_shape=ish,
+                              renames=renames or None,
                               bound=dict(fd.get("bound") or []) or None))
     return Pipeline(funcs)
 
@@ -236,21 +289,29 @@ class _Spy:
         self.cls.__post_init__ = self.orig
 
 
-def _parent_run(c, folder, cleanup=True):
+def _parent_run(c, folder, cleanup=True, fail=None, pool=False):
     """Run the request into `folder`. Returns (obs of the run, results kept alive) or (Err, None)."""
     import pipefunc
 
     sink = io.StringIO()
     with contextlib.redirect_stdout(sink):
         try:
-            p = _build(c, mapsym.CallLog())
+            p = _build(c, mapsym.CallLog(), fail)
         except Exception as e:  # noqa: BLE001
             return Err(e), None
         try:
             with _Spy() as spy:
-                r = p.map(mapsym.map_inputs(c), run_folder=folder, internal_shapes=_internal_arg(c),
-                          storage=_storage_arg(c["st"]), persist_memory=c.get("persist", True), parallel=False,
-                          cleanup=cleanup)
+                if pool:      # a real process pool: shared_memory_dict elements are dumped by the worker processes
+                    from concurrent.futures import ProcessPoolExecutor
+
+                    with ProcessPoolExecutor(2) as ex:
+                        r = p.map(mapsym.map_inputs(c), run_folder=folder, internal_shapes=_internal_arg(c),
+                                  storage=_storage_arg(c["st"]), persist_memory=c.get("persist", True), executor=ex,
+                                  cleanup=cleanup)
+                else:
+                    r = p.map(mapsym.map_inputs(c), run_folder=folder, internal_shapes=_internal_arg(c),
+                              storage=_storage_arg(c["st"]), persist_memory=c.get("persist", True), parallel=False,
+                              cleanup=cleanup)
             ri = spy.seen[-1]          # with cleanup=False the previous RunInfo is loaded (and constructed) first
             ran = [[[o, mapsym.arr_obs(r[o].output)] for o in _out_names(c)]] + c04_reload.info_obs(ri, folder, pipefunc.__version__)
             return [ran, c04_reload.listing(folder)], (r, p)
@@ -293,15 +354,16 @@ def worker_run(items):
         # folder re-use: earlier requests are run into the same folder and reloaded in this interpreter first
         alive, head = [], None
         for q in c.get("prev", []):
-            h, keep = _parent_run(q, folder)
+            # q["fail"] = (function, call index): a transient fault, the step stays partial (what it stored is persisted)
+            h, keep = _parent_run(q, folder, fail=tuple(q["fail"]) if q.get("fail") else None)
             alive.append(keep)
-            if isinstance(h, Err):
+            if isinstance(h, Err) and not (q.get("fail") and h.name == "RuntimeError"):
                 head = h
                 break
             with contextlib.redirect_stdout(io.StringIO()):
                 c04_reload.reload_obs(folder, _out_names(q), [n for n, v in q["inputs"] if isinstance(v, dict)])
         if head is None:
-            head, keep = _parent_run(c, folder, cleanup=c.get("cleanup", True))
+            head, keep = _parent_run(c, folder, cleanup=c.get("cleanup", True), pool=bool(c.get("pool")))
         tail = None
         if not isinstance(head, Err):
             apply_mutation(folder, c.get("mut"))
@@ -475,12 +537,47 @@ def _manager_cost(c):
 MAX_MANAGER_COST = 6
 
 
+def _scope_inputs(rng, c):
+    """Give root inputs (and parameters with defaults) scoped names "<scope>.<name>", several in the same scope."""
+    names = [n for n, _ in c["inputs"]] + [p for fd in c["funcs"] for p, _ in (fd.get("defaults") or [])]
+    scopes = rng.choice([["s"], ["s"], ["s", "t"]])
+    ren = {n: rng.choice(scopes) + "." + n for n in names if rng.random() < 0.85}
+    if not ren:
+        return
+    r = lambda n: ren.get(n, n)  # noqa: E731
+    for fd in c["funcs"]:
+        bound = {p for p, _ in (fd.get("bound") or [])}
+        fd["params"] = [p if p in bound else r(p) for p in fd["params"]]
+        fd["defaults"] = [[r(p), v] for p, v in (fd.get("defaults") or [])]
+        if fd.get("spec"):
+            fd["spec"]["i"] = [[r(n), ax] for n, ax in fd["spec"]["i"]]
+    c["inputs"] = [[r(n), v] for n, v in c["inputs"]]
+    c["scoped"] = True
+
+
+def _call_counts(c):
+    """Calls per function name in an uninterrupted in-memory run."""
+    log = mapsym.CallLog()
+    try:
+        with contextlib.redirect_stdout(io.StringIO()):
+            _build(c, log).map(mapsym.map_inputs(c), run_folder=None, internal_shapes=_internal_arg(c), storage="dict",
+                               parallel=False)
+    except Exception:  # noqa: BLE001
+        return {}
+    out = {}
+    for ln in log.read():
+        out[ln.split("(")[0]] = out.get(ln.split("(")[0], 0) + 1
+    return out
+
+
 def gen_case(rng):
     while True:
         c = mapgen.gen_request(rng)
         if mapgen.request_size(c) > 24 or (FILTER_INTERNAL_FIRST and not _internal_after_mapped(c)):
             continue
         c.pop("storage", None)
+        if rng.random() < 0.4:
+            _scope_inputs(rng, c)
         c["func_int"] = [fd["name"] for fd in c["funcs"] if len(fd.get("int") or []) == 1 and rng.random() < 0.5]
         c["user_int"] = [k for k, v in c.get("internal") or [] if len(v) == 1 and rng.random() < 0.5]
         xr = _xr_reference(c)
@@ -535,7 +632,7 @@ def gen_mutation(rng, c):
     return ["setin", rng.choice(["shapes", "shape_masks"]), key, rng.choice([None, 3])]
 
 
-REQ_KEYS = ["funcs", "inputs", "internal", "func_int", "user_int", "st", "persist"]
+REQ_KEYS = ["funcs", "inputs", "internal", "func_int", "user_int", "st", "persist"]   # + "fail" for a partial step
 
 
 def _request_of(c):
@@ -552,16 +649,33 @@ def _other_values(c, tag):
 def gen_sequences(rng, c):
     """Folder re-use in one process: earlier requests are run into the same folder (and reloaded) before `c` is run.
     Every variant is reloaded in the interpreter that ran the sequence and in a fresh one."""
-    kind = rng.choice(["values", "values", "other", "other", "values+other", "resume"])
+    kind = rng.choice(["values", "values", "other", "other", "values+other", "resume", "partial-pool", "partial-pool"])
     base = json.loads(json.dumps(c))
     base.pop("mut", None)
+    if kind == "partial-pool":
+        # a partial first step (a transient fault in a mapped function; what was stored is persisted), then the same
+        # request with cleanup=False and a real process pool; shared_memory_dict most often
+        if rng.random() < 0.7:
+            base["st"] = {"uni": "shared_memory_dict"}
+            if _manager_cost(base) > 2 * MAX_MANAGER_COST:
+                base["st"] = c["st"]
+        base["persist"] = True
+        counts = _call_counts(base)
+        fns = [fd["name"] for fd in base["funcs"] if fd.get("spec") and fd["spec"]["i"] and counts.get(fd["name"], 0) >= 2]
+        if not fns:
+            kind = "resume"
+        else:
+            fn = rng.choice(fns)
+            q = _request_of(base)
+            q["fail"] = [fn, rng.randint(1, counts[fn] - 1)]
+            base["prev"], base["cleanup"], base["pool"] = [q], False, True
     if kind == "resume":
-        base["prev"], base["cleanup"] = [_request_of(c)], False
+        base["prev"], base["cleanup"] = [_request_of(base)], False     # the same request, the same storage
     elif kind == "values":
         base["prev"] = [_request_of(_other_values(c, "~"))]
     elif kind == "other":
         base["prev"] = [_request_of(gen_case(rng))]
-    else:
+    elif kind == "values+other":
         base["prev"] = [_request_of(gen_case(rng)), _request_of(_other_values(c, "~"))]
     base["seq"] = kind
     out = []
@@ -581,7 +695,7 @@ def generate(rng, tier, mult):
         c["mut"] = gen_mutation(rng, c)
     rng.shuffle(out)
     _PENDING.clear()
-    for c in out:
+    for c in common.corpus_cases(PROP) + out:     # the corpus cases (run first by the engine) join the batch
         _PENDING[_key(c)] = c
     return out
 
@@ -615,6 +729,7 @@ def distribution(c):
             "xr_ref": c.get("xr"), "tuple_key": any(isinstance(k, list) and len(k) > 1 for k, _ in c["st"].get("dict", [])),
             "one_tuple_key": any(isinstance(k, list) and len(k) == 1 for k, _ in c["st"].get("dict", [])),
             "int_internal": bool(c.get("func_int") or c.get("user_int")), "nfuncs": len(c["funcs"]),
+            "scoped_inputs": bool(c.get("scoped")), "process_pool": bool(c.get("pool")),
             "edited": (c["mut"][0] + ":" + c["mut"][1]) if c.get("mut") else "no",
             "reuse": c.get("seq", "cleanup=False" if c.get("cleanup") is False else ("yes" if c.get("prev") else "no")),
             "internal_first": not _internal_after_mapped(c)}
